@@ -101,10 +101,12 @@ def check(run):
         raise vlib.Inconclusive("broker driver died: %s" % crashes[0][2][-2000:])
     v = vlib.Verdict(run)
     nev, nscn, validated, rejected, tstates = brokerlib.validate(run, "C11", scns, tpath, v)
+    # a client that hangs up (or pipelines DISCONNECT) inside its own CONNECT, and
     # a SUBSCRIBE whose sender hangs up while its handler is parked half-way (before the subscription is registered / before the
     # retained lookup): the session ends for cause and every trace of it goes, whatever the handler got done
     rn, rparked, rnev, rval, rrej, rts = racelib.check_family(
-        run, "C11", v, keep=lambda s: any(o["op"] == "race" and o["a"]["op"] == "sub" and o["b"][0]["op"] == "close" for o in s["ops"]), tag="abort")
+        run, "C11", v, keep=lambda s: any(o["op"] == "race" and ((o["a"]["op"] == "sub" and o["b"][0]["op"] == "close") or
+                                                              (o["a"]["op"] == "connect" and o["a"].get("client") == "hasty")) for o in s["ops"]), tag="abort")
     validated += rval
     tstates += rts
     rc = v.finish()
